@@ -261,7 +261,8 @@ _CONC = {}
 
 HIST = r'''
 import sys, json
-sys.path.insert(0, '/repo')
+import os
+sys.path.insert(0, os.environ.get('ATHLIB_TREE', '/repo'))
 import athlib
 from athlib import athlon_score
 g, ev, esaa = json.loads(sys.argv[1])
